@@ -84,7 +84,7 @@ func NewContractSet() *ContractSet {
 	return &ContractSet{Funcs: map[string]*FuncContract{}, Specs: map[string]*SpecFn{}, Ghosts: map[string]*GhostDecl{}, Invs: map[string]*NamedInv{}, OpaqueSorts: map[string]bool{}}
 }
 
-var kwRe = regexp.MustCompile(`^(spec|axiom|ghost|inv|func|extern|requires|ensures|modifies|may_panic|deterministic|nooverflow|inline|mode|bytes|loop|assert|locals|lemma|trusted|pure|opaque|reveal|bounded|keyfns|keyfn|sort)\b`)
+var kwRe = regexp.MustCompile(`^(spec|axiom|ghost|inv|func|extern|requires|ensures|modifies|may_panic|deterministic|nooverflow|inline|mode|bytes|loop|assert|locals|lemma|trusted|pure|opaque|reveal|bounded|keyfns|keyfn|sort|replay)\b`)
 
 // logical lines: (keyword, rest, line number)
 type cline struct {
@@ -209,7 +209,7 @@ func (cs *ContractSet) LoadFile(path, pkgPath string) error {
 				v = "true"
 			}
 			cur.Flags[l.kw] = v
-		case "mode", "bytes":
+		case "mode", "bytes", "replay":
 			cur.Flags[l.kw] = l.rest
 		case "locals", "reveal":
 			// informational
